@@ -133,7 +133,8 @@ Definition oom_str : str := [111; 111; 109].
 (** the property [event_data]; [None] = Python None (to_data turns it into '') *)
 Definition event_data (b : body) : option str :=
   match b with
-  | Scheduled w y => Some (pystr w ++ colon :: pystr y)                      (* '%s:%s' % (where, why) *)
+  | Scheduled w None => Some (pystr w)                                      (* why is None: '%s' % where *)
+  | Scheduled w (Some y) => Some (pystr w ++ colon :: y)                    (* '%s:%s' % (where, why) *)
   | Pending y | PendingDelete y | Aborted y => y
   | Configured u => u
   | Deleted | ServerBlackout | ServerBlackoutCleared => None
@@ -297,7 +298,7 @@ Definition is_some {A} (v : option A) : bool := match v with Some _ => true | No
 
 Definition body_domain (b : body) : bool :=
   match b with
-  | Scheduled w y => some_without colon w && is_some y
+  | Scheduled w _ => some_without colon w
   | Pending y | PendingDelete y | Aborted y => is_some y
   | Configured u => is_some u
   | ServerState s => is_some s
